@@ -6,6 +6,8 @@ CONSTANTS
   AliasTargets = {1,3}
   MaxNum = 3
   MaxOps = 8
+  Order <- OrderReal
+  Jumps = TRUE
 VIEW View
 ACTION_CONSTRAINT Emit
 CHECK_DEADLOCK FALSE
